@@ -11,7 +11,7 @@ from . import common
 from .common import Corr, f2hex, hex2f, frac2s, flist, parse_list
 
 ID = "C05"
-LEAN_MODULES = ["TempestVerif.Props.C05"]
+LEAN_MODULES = ["TempestVerif.Props.C05", "TempestVerif.Props.C05Warmup"]
 RULE = ("(i) decision logic: a REAL Reweighter on a real StateManager whose _compute_metric_and_weights is replaced on the instance by a "
         "generated piecewise-constant table over beta (0..6 knots; ESS/metric entries placed around the target: decreasing, arbitrary/"
         "non-monotone, plateaus exactly at target), both modes, prev in {0, knots, grid points, 1}; regime Q: dyadic betas/values/"
